@@ -264,8 +264,8 @@ func (sc *collection) doBuild(ctx context.Context) (Provider, error) {
 
 	p := &provider{
 		id:                          "p" + strconv.FormatUint(atomic.AddUint64(&providerIDCounter, 1), 36),
-		services:                    sc.services,
-		groups:                      sc.groups,
+		services:                    snapshotServices(sc.services),
+		groups:                      snapshotGroups(sc.groups),
 		graph:                       g,
 		analyzer:                    sc.analyzer, // Share analyzer from collection
 		singletonKeys:               make([]instanceKey, 0, len(allDescriptors)),
@@ -342,6 +342,26 @@ func (sc *collection) doBuild(ctx context.Context) (Provider, error) {
 	}
 
 	return p, nil
+}
+
+// snapshotServices and snapshotGroups copy the registry for a provider, so that
+// a built provider is not affected by later changes to the collection.
+func snapshotServices(services map[TypeKey]*Descriptor) map[TypeKey]*Descriptor {
+	snapshot := make(map[TypeKey]*Descriptor, len(services))
+	for key, descriptor := range services {
+		snapshot[key] = descriptor
+	}
+
+	return snapshot
+}
+
+func snapshotGroups(groups map[GroupKey][]*Descriptor) map[GroupKey][]*Descriptor {
+	snapshot := make(map[GroupKey][]*Descriptor, len(groups))
+	for key, members := range groups {
+		snapshot[key] = append([]*Descriptor(nil), members...)
+	}
+
+	return snapshot
 }
 
 // groupNode is the graph node standing for "all members of a group". Its
